@@ -182,6 +182,8 @@ def run_case(GroupBy, c):
 
 def function_stream(res, rng, tier):
     from groupby_lib.groupby.factorization import factorize_1d, factorize_2d, monotonic_factorization
+    global DRV2
+    DRV2 = Driver()
     n_cases = 600 if tier == "quick" else 6000
     for t in range(n_cases):
         n = rng.randint(1, 8)
@@ -209,6 +211,20 @@ def function_stream(res, rng, tier):
                 if which.endswith("sort") and labs != sorted(labs):
                     ok = False
                 obs = (np.asarray(codes).tolist(), labs)
+                if which.endswith("sort") and n > 0:
+                    # code-model of the sorted relabelling: unsorted run + permutation (Coq: relabel / relabel_faithful)
+                    c0, l0 = factorize_2d(api.make_key(col, kind, "numpy"), api.make_key(col2, "float", "numpy"), sort=False)
+                    if len(l0) > 0:
+                        tup0 = [list(map(int, t)) for t in zip(*[np.asarray(x) for x in l0.codes])]
+                        perm = [int(x) for x in l0.argsort()]
+                        r = DRV2.ask([sx(["relabel", perm, tup0, [int(x) for x in c0]])])[0]
+                        res.count("model_kernel", "factorize_2d sorted relabelling")
+                        tup1 = [list(map(int, t)) for t in zip(*[np.asarray(x) for x in labels.codes])]
+                        # level codes may be re-based by pandas when the index is re-ordered: compare label values
+                        lab0 = api.index_to_ranks(l0, [kind, "float"])
+                        model_labs = [lab0[i] for i in perm]
+                        if [int(x) for x in r[0]] != [int(x) for x in codes] or model_labs != labs:
+                            res.model_mismatches.append(dict(case=case, impl=str(obs), model=str(([int(x) for x in r[0]], model_labs))))
             else:
                 if kind == "str":
                     kind = "float"
